@@ -79,6 +79,10 @@ type candidate struct {
 	from    *entry   // producing entry (nil for foreign keys)
 	allowed []*entry // entries that may legitimately accept; nil = no constraint beyond the model
 	strict  bool     // acceptors must be within allowed
+	// want, when set, is a verdict derived without any single-key primitive (JWT kid candidates: the
+	// kid header is the JWT form of the output prefix); wantWhy explains it
+	want    *bool
+	wantWhy string
 }
 
 type ctx struct {
@@ -251,6 +255,12 @@ func (c *ctx) check(w *prim, cand *candidate) {
 	if (err == nil) != (len(acc) > 0) {
 		c.fatalf("candidate %q out=%x input(%v): keyset primitive err=%v, but the ENABLED keys whose single-key primitive accepts it are %s", cand.kind, cand.out, cand.in, err, names(acc))
 	}
+	if cand.want != nil {
+		if (err == nil) != *cand.want {
+			c.fatalf("candidate %q token=%s input(%v): keyset primitive err=%v, expected accept=%v: %s", cand.kind, cand.out, cand.in, err, *cand.want, cand.wantWhy)
+		}
+		evid.Add("kid_table_verdicts", 1)
+	}
 	if c.mon != nil {
 		evs := c.mon.events()
 		if err != nil && len(evs) > 0 {
@@ -328,47 +338,53 @@ func runSelection(rt *rapid.T, a *adapter, monitored bool) {
 	}
 	prim := s.primary()
 
-	// ---- produce: the primary key only, with its prefix
-	c.mon.mark()
-	wout, err := w.produce(in)
-	if err != nil {
-		c.fatalf("keyset primitive fails to produce: %v", err)
-	}
-	if c.mon != nil {
-		evs := c.mon.events()
-		for _, ev := range evs {
-			if ev.KeyID != prim.id {
-				c.fatalf("produce: the logged success (%s/%s) names key %#x, the primary is %#x", ev.Context.Primitive, ev.Context.APIFunction, ev.KeyID, prim.id)
-			}
-			monitoredEvents++
-		}
-		evid.Add("monitored_produces", int64(len(evs)))
-	}
-	if a.hasPrefix && !bytes.HasPrefix(wout, prim.prefix()) {
-		c.fatalf("produced output %x does not start with the primary's prefix %x", wout, prim.prefix())
-	}
-	if a.class == keys.JWTMAC || a.class == keys.JWTSignature {
-		kid, has, err := jwtKid(wout)
-		wantKid, wantHas := prim.info.Fields["kid"].(string), prim.info.Fields["has_kid"].(bool)
-		if err != nil || has != wantHas || (has && kid != wantKid) {
-			c.fatalf("produced token %s: kid header (%q, present=%v, err=%v), the primary's kid strategy gives (%q, present=%v)", wout, kid, has, err, wantKid, wantHas)
-		}
-	}
-	if err := c.singles[prim.idx].accept(wout, in); err != nil {
-		c.fatalf("produced output %x is not accepted by the primary key %s alone: %v", wout, prim, err)
-	}
+	// ---- produce: the primary key only, with its prefix.  checkProduce runs once before any accept
+	// call and once more after the whole candidate loop: a keyset primitive that re-points or reorders
+	// its primary after an accept through another key still answers the first call correctly.
 	primTwins := c.twinsOf(prim)
-	for _, e := range s.entries {
-		if !slices.Contains(primTwins, e) && c.singles[e.idx].accept(wout, in) == nil {
-			c.fatalf("produced output %x is accepted by the non-primary key %s alone", wout, e)
+	checkProduce := func(stage string) []byte {
+		c.mon.mark()
+		wout, err := w.produce(in)
+		if err != nil {
+			c.fatalf("%s: keyset primitive fails to produce: %v", stage, err)
 		}
-	}
-	if a.deterministic {
-		want, err := c.singles[prim.idx].produce(in)
-		if err != nil || !bytes.Equal(wout, want) {
-			c.fatalf("produced output %x, the primary key alone gives %x (err %v)", wout, want, err)
+		if c.mon != nil {
+			evs := c.mon.events()
+			for _, ev := range evs {
+				if ev.KeyID != prim.id {
+					c.fatalf("%s: the logged success (%s/%s) names key %#x, the primary is %#x", stage, ev.Context.Primitive, ev.Context.APIFunction, ev.KeyID, prim.id)
+				}
+				monitoredEvents++
+			}
+			evid.Add("monitored_produces", int64(len(evs)))
 		}
+		if a.hasPrefix && !bytes.HasPrefix(wout, prim.prefix()) {
+			c.fatalf("%s: produced output %x does not start with the primary's prefix %x", stage, wout, prim.prefix())
+		}
+		if a.class == keys.JWTMAC || a.class == keys.JWTSignature {
+			kid, has, err := jwtKid(wout)
+			wantKid, wantHas := prim.info.Fields["kid"].(string), prim.info.Fields["has_kid"].(bool)
+			if err != nil || has != wantHas || (has && kid != wantKid) {
+				c.fatalf("%s: produced token %s: kid header (%q, present=%v, err=%v), the primary's kid strategy gives (%q, present=%v)", stage, wout, kid, has, err, wantKid, wantHas)
+			}
+		}
+		if err := c.singles[prim.idx].accept(wout, in); err != nil {
+			c.fatalf("%s: produced output %x is not accepted by the primary key %s alone: %v", stage, wout, prim, err)
+		}
+		for _, e := range s.entries {
+			if !slices.Contains(primTwins, e) && c.singles[e.idx].accept(wout, in) == nil {
+				c.fatalf("%s: produced output %x is accepted by the non-primary key %s alone", stage, wout, e)
+			}
+		}
+		if a.deterministic {
+			want, err := c.singles[prim.idx].produce(in)
+			if err != nil || !bytes.Equal(wout, want) {
+				c.fatalf("%s: produced output %x, the primary key alone gives %x (err %v)", stage, wout, want, err)
+			}
+		}
+		return wout
 	}
+	wout := checkProduce("produce (first call)")
 	var cands []*candidate
 	cands = append(cands, &candidate{kind: "own output of the keyset primitive", out: wout, in: in, from: prim, allowed: primTwins, strict: true})
 
@@ -392,6 +408,11 @@ func runSelection(rt *rapid.T, a *adapter, monitored bool) {
 	// ---- a foreign key: same ID and prefix kind as an entry but other material, or prefix-less
 	if f := drawForeign(c); f != nil {
 		cands = append(cands, f)
+	}
+
+	// ---- JWT: the same key material under another kid (the kid header is the JWT form of the prefix)
+	if a.class == keys.JWTMAC || a.class == keys.JWTSignature {
+		cands = append(cands, jwtKidCandidates(c)...)
 	}
 
 	// ---- prefix manipulations of one drawn entry's output
@@ -427,7 +448,11 @@ func runSelection(rt *rapid.T, a *adapter, monitored bool) {
 	for _, cand := range cands {
 		c.check(w, cand)
 	}
-	evid.Add("candidates", int64(len(cands)))
+	// ---- produce again, after accepts through every key and after rejections
+	wout2 := checkProduce(fmt.Sprintf("produce again after %d accept calls", len(cands)))
+	c.check(w, &candidate{kind: "own output of the keyset primitive (second produce)", out: wout2, in: in, from: prim, allowed: primTwins, strict: true})
+	evid.Add("candidates", int64(len(cands)+1))
+	evid.Add("second_produces", 1)
 	record(c, len(cands))
 }
 
@@ -569,7 +594,9 @@ func TestSelectionStreaming(t *testing.T) {
 // ---------------------------------------------------------------------------------------------
 // PRF sets
 
-var prfAdapter = &adapter{name: "prf", class: keys.PRF, types: keys.Types(keys.PRF), monitored: true}
+// legacyURL: a harness-owned PRF key type served by a key manager (the factory's legacy path); PRF
+// sets have no output prefix, so such keys exist with prefix type RAW only.
+var prfAdapter = &adapter{name: "prf", class: keys.PRF, types: keys.Types(keys.PRF), monitored: true, legacyURL: legacykm.PrfURL, legacyLen: 32, legacyRawOnly: true}
 
 func runPRF(rt *rapid.T, monitored bool) {
 	detrand.Seed(rapid.Uint64().Draw(rt, "entropy"))
@@ -624,6 +651,13 @@ func runPRF(rt *rapid.T, monitored bool) {
 		}
 	}
 	singleOut := func(e *entry) []byte {
+		if e.legacy() { // the harness's own model: the raw PRF of the key manager, nothing added
+			o, err := (&legacykm.RawPRF{Key: e.material}).ComputePRF(in.msg, outLen)
+			if err != nil {
+				c.fatalf("harness: legacy PRF model: %v", err)
+			}
+			return o
+		}
 		sh, err := tk.HandleFromKey(e.info.Key)
 		if err != nil {
 			c.fatalf("harness: one-key handle: %v", err)
@@ -678,4 +712,83 @@ func TestMonitoring(t *testing.T) {
 	if !t.Failed() && monitoredEvents == before {
 		t.Fatalf("harness self-check: no monitoring event was observed, the fake client is not wired up")
 	}
+}
+
+// jwtKidCandidates: tokens made with the key material of one drawn entry i but carrying another kid
+// header.  They come from SIBLING keys of i (same material and algorithm, rebuilt by the generator
+// under another kid strategy): the key-ID strategy with the ID of another entry j or with an ID no
+// entry has, and the prefix-less strategy (no kid header at all for IGNORED).  Such a token is valid
+// under the material of i only, so
+//
+//   - model: the keyset primitive accepts iff some ENABLED single-key primitive does, and only i's can;
+//   - C05's own clause "valid under some ENABLED key whose prefix it carries (or which has no
+//     prefix)", with the kid in the place of the prefix: when i uses the key-ID strategy the token must
+//     carry exactly i's kid, when i ignores the kid any kid (or none) will do; accepted iff i is ENABLED
+//     and that holds.  For a custom-kid entry i this second verdict is not drawn (its rule - equal when
+//     present - is C09's, not C05's); the model still applies.
+func jwtKidCandidates(c *ctx) []*candidate {
+	rt, s := c.rt, c.s
+	i := rapid.SampledFrom(s.entries).Draw(rt, "kid_source")
+	if i.legacy() {
+		return nil
+	}
+	type sib struct {
+		variant string
+		id      uint32
+		what    string
+	}
+	used := map[uint32]bool{}
+	var others []*entry
+	for _, e := range s.entries {
+		used[e.id] = true
+		if e != i {
+			others = append(others, e)
+		}
+	}
+	fresh := gen.KeyID(rt, "kid_fresh_id")
+	for used[fresh] {
+		fresh++
+	}
+	sibs := []sib{{tk.Tink, fresh, fmt.Sprintf("the key-ID kid of ID %#x, which no entry has", fresh)}, {tk.NoPrefix, 0, "the prefix-less kid strategy"}}
+	if len(others) > 0 {
+		j := rapid.SampledFrom(others).Draw(rt, "kid_other")
+		sibs = append(sibs, sib{tk.Tink, j.id, fmt.Sprintf("the key-ID kid of #%d", j.idx)})
+	}
+	iStrategy := i.info.Fields["kid_strategy"].(string)
+	iKid, iHas := i.info.Fields["kid"].(string), i.info.Fields["has_kid"].(bool)
+	var out []*candidate
+	for _, sb := range sibs {
+		re, ok := i.info.WithVariantID(sb.variant, sb.id)
+		if !ok || !re.Usable {
+			continue
+		}
+		kid, has := re.Fields["kid"].(string), re.Fields["has_kid"].(bool)
+		if has == iHas && kid == iKid {
+			continue // the sibling is the entry's own key
+		}
+		f := &entry{idx: -1, fate: "SIBLING", id: sb.id, info: re, key: re.Key}
+		tok, err := single(rt, c.a, s, f).produce(c.in)
+		if err != nil {
+			c.fatalf("single-key primitive of the sibling key %s fails to produce: %v", f, err)
+		}
+		gotKid, gotHas, err := jwtKid(tok)
+		if err != nil || gotHas != has || (has && gotKid != kid) {
+			c.fatalf("harness: the sibling key %s produced token %s with kid (%q, present=%v, err=%v), expected (%q, present=%v)", f, tok, gotKid, gotHas, err, kid, has)
+		}
+		cand := &candidate{kind: fmt.Sprintf("token made with the material of #%d (%s, kid strategy %s) under %s", i.idx, i.fate, iStrategy, sb.what), out: tok, in: c.in, from: i, allowed: c.twinsOf(i), strict: true}
+		if len(cand.allowed) == 1 { // no other entry shares the material
+			var want bool
+			switch iStrategy {
+			case keys.KIDBase64:
+				want = i.fate == fEnabled && has && kid == iKid
+				cand.want, cand.wantWhy = &want, fmt.Sprintf("the only key it is valid under is #%d (%s), whose key-ID kid is %q; the token carries (%q, present=%v)", i.idx, i.fate, iKid, kid, has)
+			case keys.KIDIgnored:
+				want = i.fate == fEnabled
+				cand.want, cand.wantWhy = &want, fmt.Sprintf("the only key it is valid under is #%d (%s), which has no kid (prefix-less) and takes any", i.idx, i.fate)
+			}
+		}
+		evid.Add("kid_candidates/"+iStrategy, 1)
+		out = append(out, cand)
+	}
+	return out
 }
